@@ -68,7 +68,14 @@ class Names:
 
 def gen_stmt(rng: random.Random, names: Names, defined: List[str]) -> List[str]:
     n = names.fresh()
-    k = rng.randrange(19)
+    k = rng.randrange(21)
+    if k == 19:
+        # text that looks like an HTML character reference (it is literal recipe text)
+        return [rng.choice([f"1 salt &amp; pepper{n}", f"2 &deg;C item{n}", f"1 x&lt;y{n}", f"3 &#65;pple{n}",
+                            f"1 'item{n} &quot;quoted&quot;'", f"1 AT&T{n} &amp;amp; co"])]
+    if k == 20:
+        defined.append(f"amp{n}&amp;")
+        return [f"amp{n}&amp; = 200g fish &amp; chips{n}"]
     if k == 17:
         # a line whose first character is "#" (a legal ingredient name)
         return [rng.choice([f"#{n} mix", f"# of eggs {n}", f"#item{n}, chopped"])]
@@ -358,12 +365,13 @@ def inject(doc: Doc, rng: random.Random, kind: str, bi: int, p: int) -> Optional
     n = 9000 + rng.randrange(1000)
     li = 0
     # shape of the faulty line: plain, tabs as horizontal white space, a long line (80-200 characters), both
-    shape = rng.choice(["plain", "plain", "tab", "long", "long+tab"])
+    shape = rng.choice(["plain", "plain", "tab", "long", "long+tab", "entity"])
+    ent = " &amp; x&lt;y &#65;" if shape == "entity" else ""    # entity-like literal text inside the faulty line
     if kind == "redef":
         name = f"dup{n}"
         second_name = rng.choice([name, name.upper(), name.capitalize()])
-        if shape == "plain":
-            second = [f"{second_name} = 2 item{n}b"]
+        if shape in ("plain", "entity"):
+            second = [f"{second_name} = 2 item{n}b{ent}"]
         elif shape == "tab":
             second = [f"{second_name}\t=\t2\titem{n}b"]
         elif shape == "long":
@@ -389,7 +397,7 @@ def inject(doc: Doc, rng: random.Random, kind: str, bi: int, p: int) -> Optional
         _fix_last_blank(first_b)
     elif kind == "prop":
         tpl = rng.choice(PROPS)
-        x = f"nothing{n}"
+        x = f"nothing{n}" + ("&amp;&deg;" if shape == "entity" else "")
         if tpl == "multi":
             st = [f"fry(", f"  1 item{n}a,", f"  1/3 of {x},", f"  2 item{n}c", ")"]
             li, col, token = 2, 2, f"1/3 of {x}"
@@ -407,10 +415,10 @@ def inject(doc: Doc, rng: random.Random, kind: str, bi: int, p: int) -> Optional
     elif kind == "stray":
         where, tok = rng.choice(STRAYS)
         if where == "start":
-            line = f"{tok} item{n}"
+            line = f"{tok} item{n}{ent}"
             col = 0
         elif where == "end":
-            line = f"2 item{n} {tok}"
+            line = f"2 &lt;item{n}{ent} {tok}" if ent else f"2 item{n} {tok}"
             col = len(line) - 1
         elif where == "eq":
             line = f"x{n} = = 2 item{n}"
